@@ -352,3 +352,66 @@ func H_C15_ephemeral_lifetime() {
 	verifnd.Assert(err == nil && srv.nodes["/ns/health/h1"] != nil && srv.nodes["/ns/health/h1"].ephOwner == c2.session, "health.recreated")
 	verifnd.Reach("C15.ephemeral")
 }
+
+// H_C15_retry_write: Create / Delete under connection faults (a request lost before it reached the
+// server, or applied with the reply lost; the real retry wrappers re-send). Another client may
+// create or delete the key between two attempts. Whatever happens, "nil" is only answered for an
+// effect this very call had on the tree: Create answers nil only if one of its attempts created
+// the node; Delete answers nil only if the node is gone.
+func H_C15_retry_write() {
+	k := verifKeys[verifnd.Choose("key", 2)]
+	full := "/ns/" + k
+	c := verifC15SetupFor(k, false)
+	c.me.FaultBudget = verifnd.Param("zk_faults", 1)
+	c.z.isConnected = true
+	// the other client acts once, right before one of this client's requests
+	acted := false
+	c.me.Yield = func(op, path string) {
+		if acted || path != full || verifnd.Choose("other.acts", 3) == 0 {
+			return
+		}
+		acted = true
+		if c.srv.nodes[full] == nil {
+			if pn := c.srv.nodes[verifZKParent(full)]; pn != nil && pn.ephOwner == 0 {
+				c.srv.put(full, []byte(`"theirs"`), 0)
+				c.srv.Log = append(c.srv.Log, "other create "+full)
+				verifnd.Event("other creates " + k)
+			}
+		} else if !c.srv.hasChildren(full) {
+			_ = c.other.Delete(full, -1)
+			verifnd.Event("other deletes " + k)
+		}
+	}
+	nlog := len(c.srv.Log)
+	op := verifnd.Choose("op", 2)
+	var err error
+	if op == 0 {
+		err = c.z.Create(k, "mine")
+	} else {
+		err = c.z.Delete(k)
+	}
+	mine := 0
+	for _, l := range c.srv.Log[nlog:] {
+		if op == 0 && l == "me create "+full {
+			mine++
+		}
+	}
+	faults := verifnd.Param("zk_faults", 1) - c.me.FaultBudget
+	if faults > 0 {
+		verifnd.Reach("C15.retry-write.faulted")
+	}
+	if op == 0 {
+		if err == nil {
+			verifnd.Reach("C15.retry-write.created")
+			verifnd.Assert(mine >= 1, "retry.create-nil-means-created-by-this-call")
+		}
+		if errors.Is(err, ErrExists) {
+			verifnd.Reach("C15.retry-write.exists")
+		}
+		// (no at-most-once claim: a create applied with its reply lost is sent again, and if another
+		// client deleted the node in between it is applied twice — at-least-once is all ZooKeeper offers)
+	} else if err == nil {
+		// (the other client may have re-created it after this call's delete was applied)
+		verifnd.Assert(c.srv.nodes[full] == nil || acted, "retry.delete-nil-means-gone")
+	}
+}
